@@ -470,3 +470,29 @@ package encoder
 //@   requires !isNaN(v) && !isInf(v)
 //@   trusted strconv.AppendFloat of a finite value is a JSON number; output not modelled
 //@   assigns all
+
+// ---------------------------------------------------------------- json.Number (C03)
+// The RFC 8259 number grammar as a DFA: 0 start, 1 after '-', 2 after a leading 0, 3 in the integer
+// digits, 4 after '.', 5 in the fraction, 6 after e|E, 7 after the exponent sign, 8 in the exponent, 9 dead.
+//@ spec isDig(c) := c >= '0' && c <= '9'
+//@ spec numStep(q, c) := (q == 0 ? (c == '-' ? 1 : (c == '0' ? 2 : (isDig(c) ? 3 : 9))) : (q == 1 ? (c == '0' ? 2 : (isDig(c) ? 3 : 9)) : (q == 2 ? (c == '.' ? 4 : ((c == 'e' || c == 'E') ? 6 : 9)) : (q == 3 ? (isDig(c) ? 3 : (c == '.' ? 4 : ((c == 'e' || c == 'E') ? 6 : 9))) : (q == 4 ? (isDig(c) ? 5 : 9) : (q == 5 ? (isDig(c) ? 5 : ((c == 'e' || c == 'E') ? 6 : 9)) : (q == 6 ? ((c == '+' || c == '-') ? 7 : (isDig(c) ? 8 : 9)) : ((q == 7 || q == 8) ? (isDig(c) ? 8 : 9) : 9))))))))
+//@ spec numAccept(q) := q == 2 || q == 3 || q == 5 || q == 8
+// numRun(p, i): the DFA state after the i bytes at p (uninterpreted; its two defining equations are stated where needed)
+//@ ufun numRun(Int, Int) Int
+
+//@ func isValidNumber(s) (ok)
+//@   props C03
+//@   define numRun(ptrOf(s), 0) == 0 && (forall k :: 0 <= k ==> numRun(ptrOf(s), k + 1) == numStep(numRun(ptrOf(s), k), M(ptrOf(s) + k)))
+// soundness: whatever is accepted is a JSON number (the converse is not needed for C03)
+//@   ensures ok ==> numAccept(numRun(ptrOf(s), len(s)))
+//@   assigns nothing
+// each digit loop is entered on its first digit (not yet consumed) and then stays in the digit state
+//@   loop 1: invariant 0 <= i && i <= len(s) && (numRun(ptrOf(s), i) == 3 || ((numRun(ptrOf(s), i) == 0 || numRun(ptrOf(s), i) == 1) && i < len(s) && s[i] >= '1' && s[i] <= '9'))
+//@   loop 2: invariant 0 <= i && i <= len(s) && (numRun(ptrOf(s), i) == 5 || (numRun(ptrOf(s), i) == 4 && i < len(s) && isDig(s[i])))
+//@   loop 3: invariant 0 <= i && i <= len(s) && (numRun(ptrOf(s), i) == 8 || ((numRun(ptrOf(s), i) == 6 || numRun(ptrOf(s), i) == 7) && i < len(s) && isDig(s[i])))
+
+//@ func AppendNumber(ctx, b, n) (out, err)
+//@   props C03
+//@   requires len(b) <= cap(b)
+//@   ensures err == nil && len(n) != 0 ==> numAccept(numRun(ptrOf(n), len(n)))
+//@   assigns all
